@@ -8,8 +8,9 @@ by its choice list, which is also its replay recipe (`replay(body, choices)`).
 from __future__ import annotations
 
 
-class HarnessError(Exception):
-    pass
+class HarnessError(BaseException):
+    """Replay divergence or an impossible choice.  BaseException on purpose: library code under test that catches
+    `Exception` must not be able to swallow it."""
 
 
 class Chooser:
